@@ -14,6 +14,9 @@ CHECKS = {
  "C11": ("exploration", "reference-codec monitor: bytes emitted by the real peerwriter/btconn compared with an independent encoder; fragmenting pipe into the client's reader; upload counter conservation",
          "Every byte the real writer emits for PRNG message sequences (all kinds, boundary field values) must equal an independent BEP 3/6/9/10/11 reference encoding; the same stream, re-fragmented by 5 patterns, must come out of the client's own reader as identical messages; sum of BlockUploaded equals piece payload bytes on the wire; handshake bytes via Dial/Accept equal the 68-byte layout.",
          "Reference codec written from the BEPs; bencode dictionaries expected in canonical key order; queue-policy transformations of the writer (reject on overflow/duplicate, choke cancelling queued pieces) are excluded from the generated sequences.", "4/C11"),
+ "C12": ("exploration", "two-ended handshake monitor against an independent MSE implementation with enumerated pad lengths; policy matrix against reference endpoints",
+         "Every handshake is observed at both ends: outcome agreement (both fail / both succeed with one offered cipher), byte identity of initial payload and of both stream directions, must-fail cases (wrong key, corrupt VC, illegal selection). The reference side enumerates its own pad lengths (quick: 64 values per pad incl. the boundaries, thorough: all 0..511) under several transport chunkings; btconn.Accept/Dial are run against reference endpoints for every consistent force/disable setting, counting plaintext attempts.",
+         "Reference MSE is written from the MSE/PE specification. rain's own pad lengths are random (not controllable without a hook): covered by repetition only. Session-level use of the flags is covered where C10/C17 sessions run with encryption settings.", "4/C12"),
 }
 PENDING = {}
 props = [json.loads(l) for l in open(os.path.join(V, 'properties.jsonl'))]
